@@ -535,5 +535,11 @@ def _run_ctor(case, ctx):
                  builders, {"check": "ctor", "shape": list(shape), "A": A})
     for name, rws in (("sum", rows), ("cancel", cancel)):
         builders = [(list(o), (lambda o, g: lambda: g(o))(o, spm(rws))) for o in orders]
-        _run_ops(ctx, case, [("sptenmat_ctor_" + name, "sptenmat.__init__", lambda M: canon(M))],
+        def canon_ctor(M):
+            # the constructor combines repeated subscripts: like every combining operation it leaves no explicit zero
+            probs = O.wf_sptenmat(M, allow_explicit_zero=False)
+            if probs:
+                raise Malformed(",".join(probs))
+            return canon(M)
+        _run_ops(ctx, case, [("sptenmat_ctor_" + name, "sptenmat.__init__", canon_ctor)],
                  builders, {"check": "ctor", "shape": list(shape), "A": A})
